@@ -4,6 +4,7 @@
 import N2V.Model.World
 import N2V.Lemmas.Work
 import N2V.Lemmas.WorldClean
+import N2V.Lemmas.WorldSettled
 namespace N2V.C03
 open N2V N2V.Work N2V.Load
 
@@ -128,6 +129,36 @@ theorem up_to_date_build_runs_nothing (e0 : Env) (a : Run.Args) (adopt : Bool) (
     (∀ n, r.2.2 = .done n → n = 0) ∧ (∀ n, r.2.2 ≠ .reload n) :=
   build_upToDate e0 a adopt perms fin gok dok hc hu
 
+/-- **After a successful build, the same build again does nothing** — the round trip, proved for
+    projects without discovered dependencies (no `depfile`/`deps`, no command that rewrites an
+    input, no dependency lists in the log) on graphs without ordering cycles.  If an invocation
+    succeeds (without reloading the manifest), every step it wanted was marked, the files those
+    steps name exist afterwards, and the manifest still loads to the same graph, then the next
+    invocation with the same arguments changes nothing, starts no command and reports 0 tasks —
+    whatever the completion orders and hash-set iteration orders in either invocation.
+    Composition of `Work.build_done_js` (at the end of a successful `run::build` every Done step is
+    settled: the signature the next start-up attaches to it is the manifest of the files as they
+    are; invariant `Work.JS` carried through the scheduler by `Sched.runLoop_done`) with
+    `repeated_build_does_nothing`. -/
+theorem build_after_successful_build_does_nothing (w : World) (a : InvArgs) (perms : List (List Nat))
+    (fin : List (Nat × Sched.Term)) (l : Loader) (e0 : Env) (hl : loadEnv w a.manifestName = .ok (l, e0))
+    (plain : Plain e0.g) (hlog : ∀ r ∈ w.log, r.deps = [])
+    (acyc : Sched.Acyclic (schedGraph e0.g)) (hpar : 0 < a.par) (n : Nat)
+    (hdone : (Run.build (schedGraph e0.g) (argsOf l a) (choices a.adopt perms fin) e0).2.2 = .done n)
+    (hcomplete : ∀ b, Run.Wanted (schedGraph e0.g) (argsOf l a) b →
+      (Run.build (schedGraph e0.g) (argsOf l a) (choices a.adopt perms fin) e0).1.st b ≠ .unknown)
+    (hpresent : ∀ b bm, Run.Wanted (schedGraph e0.g) (argsOf l a) b → buildOf e0.g b = some bm → bm.cmdline.isNone = false →
+      AllPresent (Run.build (schedGraph e0.g) (argsOf l a) (choices a.adopt perms fin) e0).2.1 bm)
+    (w' : World)
+    (hw' : w' = { fs := (Run.build (schedGraph e0.g) (argsOf l a) (choices a.adopt perms fin) e0).2.1.fs,
+                  clock := (Run.build (schedGraph e0.g) (argsOf l a) (choices a.adopt perms fin) e0).2.1.clock,
+                  log := (Run.build (schedGraph e0.g) (argsOf l a) (choices a.adopt perms fin) e0).2.1.log })
+    (e0' : Env) (hl' : loadEnv w' a.manifestName = .ok (l, e0'))
+    (o1 o2 : List (List Nat) × List (Nat × Sched.Term)) :
+    (invoke w' a o1 o2).1 = w' ∧ commandEvents (invoke w' a o1 o2).2.2 = [] ∧
+    (∀ k, (invoke w' a o1 o2).2.1 = .done k → k = 0) :=
+  second_build_does_nothing w a perms fin l e0 hl plain hlog acyc hpar n hdone hcomplete hpresent w' hw' e0' hl' o1 o2
+
 /-- Non-vacuity: a two-file project (`build out: cc in`) whose record matches the tree satisfies
     the hypothesis. -/
 def exBuild : BuildM :=
@@ -154,5 +185,11 @@ example : AllUpToDate exEnv (fun _ => True) := by
     | succ n => simp [buildOf, exEnv] at hb
   · intro b bm _ hb _ f hf
     simp [discOf, assocGet, exEnv] at hf
+
+/-- ... and its graph is of the kind the round-trip theorem covers. -/
+example : Plain exEnv.g := by
+  refine ⟨?_, ?_, ?_⟩ <;> intro b bm hb <;> (cases b with
+    | zero => simp [buildOf, exEnv] at hb; subst hb; decide
+    | succ n => simp [buildOf, exEnv] at hb)
 
 end N2V.C03
